@@ -62,7 +62,9 @@ func defaultReturnHandler() ReturnHandler {
 			return
 		}
 
-		if respVal.IsZero() {
+		// An empty byte slice is an empty result just like an empty string or a nil
+		// slice, which is not zero when it is non-nil.
+		if respVal.IsZero() || (isByteSlice(respVal) && respVal.Len() == 0) {
 			return
 		}
 
